@@ -296,6 +296,9 @@ c = 3 # line c
 # free end
 `
 
+// a file whose last item is a block (with a bare, unquoted label) and that has no final newline
+const srcNoEOLBlock = "a = 1\nblk l {\n  b = 2\n}"
+
 var initialFiles = []initialFile{
 	{name: "empty", src: "", build: hclwrite.NewEmptyFile},
 	{name: "generated", src: srcGenerated, build: func() *hclwrite.File {
@@ -318,6 +321,7 @@ var initialFiles = []initialFile{
 	{name: "noeol-line-comment", src: srcNoEOLLine, build: parsed(srcNoEOLLine)},
 	{name: "noeol-own-comment", src: srcNoEOLOwn, build: parsed(srcNoEOLOwn)},
 	{name: "comment-runs", src: srcCommentRuns, build: parsed(srcCommentRuns)},
+	{name: "noeol-block-bare-label", src: srcNoEOLBlock, build: parsed(srcNoEOLBlock)},
 }
 
 // ---------------------------------------------------------------------------
